@@ -108,7 +108,7 @@ def lock_discipline(run, f):
     names = sorted({x.root or x.defn for x in acq})
     run.require(len(acq) == 2, "O12.5", "lock-acquisition-sites", "the graph mutex is locked in %s" % names, "lock acquired in %s" % names)
     # O12.6 destructor tolerance
-    d = "<WaitForGuard as std::ops::Drop>::drop"
+    d = __import__("anchors").guard_drop_def(f)
     db = f.body(d)
     if run.require(db is not None, "O12.6", "drop-impl", "WaitForGuard::drop not found", "found"):
         ps = deadlock.panic_sites_in(f, db, None, depth=2)
